@@ -36,6 +36,8 @@ pub fn equil_problem(rng: &mut StdRng) -> Problem {
             if nrm > 0.0 { let f = (1.0 + 2e-4 * gen::unif(rng, -1.0, 1.0)) / nrm; for j in 0..n { a[i][j] *= f; } p.b[i] *= f; }
         }
     }
+    // a hugely negative finite right-hand side is an ordinary number (only +bound and above are capped)
+    if rng.gen::<f64>() < 0.08 && m > 0 { let i = rng.gen_range(0..m); p.b[i] = [-3e24, -1e20, -7.5e30][rng.gen_range(0..3)]; }
     // a right-hand side at or above the infinity bound (presolve is off in this corpus: the entry is capped and kept)
     if rng.gen::<f64>() < 0.12 && m > 0 { let i = rng.gen_range(0..m); p.b[i] = [1e20, 3e25, f64::MAX][rng.gen_range(0..3)]; }
     // zero rows and columns, empty P, zero q
@@ -85,6 +87,14 @@ pub fn event(run: usize, p: &Problem) -> Value {
                 sv
             } else { DefaultSolver::new(&P, &p.q, &A, &p.b, &cones, st.clone()) }
         } else { DefaultSolver::new(&P, &p.q, &A, &p.b, &cones, st.clone()) };
+        // "+again": the (public) equilibration routine is run a second time on the solver's data; it is cumulative - the
+        // scalings it records afterwards must still relate the stored data to the user's
+        let mut solver = solver;
+        if p.tag.contains("+again") {
+            use clarabel::solver::traits::ProblemData;
+            let (cones_ref, settings_ref) = (&solver.cones, &solver.settings);
+            solver.data.equilibrate(cones_ref, settings_ref);
+        }
         let d = &solver.data;
         let eq = &d.equilibration;
         let (m, n) = (p.m(), p.n());
@@ -148,6 +158,7 @@ pub fn record(seed: u64, count: usize) -> (Vec<Value>, Vec<Value>, Value) {
     for run in 0..count {
         let mut p = equil_problem(&mut rng);
         if run % 3 == 1 { p.tag.push_str("+upd"); }
+        if run % 10 == 2 { p.tag.push_str("+again"); }
         let e = event(run, &p);
         if e["cones"].as_array().map(|c| c.iter().any(|x| x["scalar"] == false)).unwrap_or(false) && e["enable"] == true { nonsc += 1; }
         lines.push(e);
